@@ -16,7 +16,7 @@ ContainerAlpha ==
   {It("default", "word"), It("default", "words"), It("rename_all", "rule"), It("rename_all", "str"), It("map", "str"), It("and_then", "str"),
    It("allow_unknown_fields", "word"), It("allow_unknown_fields", "str"), It("attributes", "words"), It("attributes", "str"),
    It("forward_attrs", "word"), It("forward_attrs", "words"), It("forward_attrs", "empty"), It("from_ident", "word"), It("from_word", "path"), It("from_word", "str"),
-   It("from_none", "closure"), It("supports", "shapes"), It("supports", "badshape"), It("supports", "dblprefix"), It("supports", "anybad"), It("supports", "litshape"), It("supports", "nvshape"), It("bogus", "words"),
+   It("from_none", "closure"), It("supports", "shapes"), It("supports", "badshape"), It("supports", "dblprefix"), It("supports", "anybad"), It("supports", "litshape"), It("supports", "nvshape"), It("supports", "pathshape"), It("bogus", "words"),
    It("::map", "str"), It("::default", "word"), It("bound", "preds"), It("bound", "str"), It("bound", "word")}      \* a leading `::` makes it another name
 ContainerSmall == {It("from_word", "path"), It("attributes", "words"), It("forward_attrs", "word")}
 AttrForms == {It("@bare", ""), It("@nv", ""), It("@lit", ""), It("@junk", "")}
